@@ -65,6 +65,7 @@ func thorough(o options, ps *PropSpec, ruleIDs []string, rev *Reviewed, base []*
 	wits, werr := loadWitnesses(filepath.Join(o.verif, "checker", "witnesses"))
 	if werr != nil {
 		out["witness_error"] = werr.Error()
+		viol = append(viol, &Ob{Rule: "HARNESS", Construct: "witnesses", Pos: "-", Verdict: UNDECIDED, Detail: "witness set unusable: " + werr.Error()})
 	}
 	ruleSet := map[string]bool{}
 	for _, r := range ruleIDs {
@@ -155,6 +156,9 @@ func loadWitnesses(dir string) ([]*witness, error) {
 		}
 		if w.Rule == "" {
 			return nil, fmt.Errorf("witness %s has no '# rule:' header", e.Name())
+		}
+		if !bytes.Contains(b, []byte("\ndiff --git ")) {
+			return nil, fmt.Errorf("witness %s contains no diff", e.Name())
 		}
 		ws = append(ws, w)
 	}
